@@ -74,6 +74,15 @@ Theorem C30_read_back_rules :
     map fst (expected_groups g) = first_occurrences (map br_lhs (bg_rules g)).
 Proof. exact expected_groups_rules. Qed.
 
+(* read_back_file: with decls_wf in addition (start symbols are nonterminals, associativities 0..2, precedence
+   terminals are tokens) the reader applied to the WHOLE model file (split at the %% lines) returns the start
+   symbols with their no-eoi flags, the precedence list (associativity, terminals) in order, the %token
+   terminals (TokensWithoutPrec from the second on) and the grouped rules *)
+Theorem C30_read_back_file :
+  forall g, bison_wf g = true -> decls_wf g = true ->
+    exists text, bison_text g = Some text /\ read_file g text = Some (expected_file g).
+Proof. exact read_file_exact. Qed.
+
 (* non-vacuity: 4 terminals (eoi, '+' PLUS, id ID, u U), nonterminals E (4), L (5);
    E : E PLUS {} E %prec U | /*.m*/ ID -> X ;   L : %empty | L x=E ; *)
 Definition ex_g : bgrammar :=
@@ -86,10 +95,14 @@ Definition ex_g : bgrammar :=
         mkBRule 5 (ESeq [ERef 5 []; EAssign [120] (ERef 4 [])]) false]
        [].
 Example C30_read_back_example :
-  bison_wf ex_g = true /\
+  bison_wf ex_g = true /\ decls_wf ex_g = true /\
   match rule_section ex_g with Some t => read_rules ex_g t | None => None end
-    = Some [(4, [([4; 1; 4], Some 3); ([2], None)]); (5, [([], None); ([5; 4], None)])].
-Proof. vm_compute. split; reflexivity. Qed.
+    = Some [(4, [([4; 1; 4], Some 3); ([2], None)]); (5, [([], None); ([5; 4], None)])] /\
+  match bison_text ex_g with Some t => read_file ex_g t | None => None end
+    = Some (mkY [(4, false); (5, true)] [(0, [1]); (2, [3])] [2]
+                [(4, [([4; 1; 4], Some 3); ([2], None)]); (5, [([], None); ([5; 4], None)])]).
+Proof. vm_compute. repeat split; reflexivity. Qed.
 
 Print Assumptions C30_read_back_exact.
 Print Assumptions C30_read_back_rules.
+Print Assumptions C30_read_back_file.
